@@ -1402,21 +1402,34 @@ class Config:  # pylint: disable=too-many-instance-attributes
         self.load_tree(tree)
 
     def _process_includes(
-        self, schema: Schema, tree: dict, format_factory: "TFormatFactory"
+        self,
+        schema: Schema,
+        tree: dict,
+        format_factory: "TFormatFactory",
+        ref_prefix: Optional[str] = None,
     ) -> dict:
         """
         Process include fields when loading when a configuration file. This method will load
-        included fields for all ``IncludeField`` instances in the schema and all children schemas.
+        included fields for all ``IncludeField`` instances in the schema and all children schemas
+        (nested schemas and sections declared as a configuration type).
 
         :param schema: schema to load from
         :param tree: parsed tree
         :param format: config format
+        :param ref_prefix: path of ``schema`` from the root, when its fields do not know it (the
+            schema of a configuration type is not attached to the schema that uses the type)
         """
-        sub_schemas = [
-            (key, field)
-            for key, field in schema._fields.items()
-            if isinstance(field, Schema)
-        ]
+        # the parsed tree is not changed in place: a document may refer to one map twice
+        tree = dict(tree)
+        sub_schemas: List[Tuple[str, Schema, Optional[str]]] = []
+        for key, field in schema._fields.items():
+            sub_prefix = "%s.%s" % (ref_prefix, key) if ref_prefix else None
+            if isinstance(field, Schema):
+                sub_schemas.append((key, field, sub_prefix))
+            elif isinstance(field, ConfigTypeField):
+                sub_schemas.append(
+                    (key, field.config_type.__schema__, sub_prefix or field._ref_path)
+                )
         includes: List[Tuple[str, IncludeFieldMixin]] = [
             (key, field)
             for key, field in schema._fields.items()  # type: ignore
@@ -1438,16 +1451,20 @@ class Config:  # pylint: disable=too-many-instance-attributes
                 raise
             except ValueError as err:
                 # a rejected include path is a validation error of the include field
-                raise ValidationError(
-                    self, field, err, ref_path=field._ref_path  # type: ignore
-                ) from err
+                ref_path = "%s.%s" % (ref_prefix, key) if ref_prefix else field._ref_path  # type: ignore
+                raise ValidationError(self, field, err, ref_path=ref_path) from err  # type: ignore
 
-        for key, sub_schema in sub_schemas:
+        for key, sub_schema, sub_prefix in sub_schemas:
             # (a value that is not a map is rejected with a proper error by load_tree)
             if isinstance(tree.get(key), dict):
-                tree[key] = self._process_includes(
-                    sub_schema, tree[key], format_factory
-                )
+                if sub_prefix is None:
+                    tree[key] = self._process_includes(
+                        sub_schema, tree[key], format_factory
+                    )
+                else:
+                    tree[key] = self._process_includes(
+                        sub_schema, tree[key], format_factory, sub_prefix
+                    )
 
         return tree
 
